@@ -9,8 +9,10 @@ pub fn fd1arr(fd: RawFd) -> (r: Fd1) ensures r.fd == fd { Fd1 { fd } }
 pub trait AsFd1 { spec fn fdv(&self) -> int; }
 impl AsFd1 for RawFd { open spec fn fdv(&self) -> int { *self as int } }
 impl AsFd1 for Fd1 { open spec fn fdv(&self) -> int { self.fd as int } }
+// R12 target
 #[verifier::external_body]
 pub fn fd1<X: AsFd1>(x: X) -> (r: Option<&'static [RawFd]>) ensures opt_rawfds(r) == seq![x.fdv()] { unimplemented!() }
+// R12 target
 #[verifier::external_body]
 pub fn some_slice(v: &Vec<RawFd>) -> (r: Option<&[RawFd]>) ensures r is Some, r->Some_0@ == v@, opt_rawfds(r) == fds_int(v@) { unimplemented!() }
 // R6 targets: integer widening `into()` (assumed: core From impls)
